@@ -199,3 +199,37 @@ def groupingOp (j : Json) : Json :=
   | _, _ => jErr "grouping: bad arguments"
 
 end Tangelo.Driver
+
+namespace Tangelo.Driver
+open Tangelo.Codec Tangelo.Noise Lean
+
+def rawParamsOfJson (j : Json) : RawParams := match j with
+  | .arr a => match a.toList.mapM ratOfJson? with | some l => .list l | none => .other
+  | .str s => match parseRat? s with | some r => .float r | none => .other
+  | _ => .other
+
+def nopToJson : NOp → Json
+  | .gate g => Json.mkObj [("k", Json.str "gate"), ("g", gateToJson g)]
+  | .pauliCh a b c q => Json.mkObj [("k", Json.str "pauli"), ("p", Json.arr #[ratToJson a, ratToJson b, ratToJson c]), ("q", natListToJson [q])]
+  | .depolCh r qs => Json.mkObj [("k", Json.str "depol"), ("rate", ratToJson r), ("q", natListToJson qs)]
+
+/-- {"op":"noise","errors":[[gate,type,params]..],"gates":[..],"n":w,"dm":bool}
+    → validation outcome per error, operation list, exact density matrix (model index order) -/
+def noiseOp (j : Json) : Json :=
+  let errs := match j.getObjValD "errors" with | .arr a => a.toList | _ => []
+  let (model, flags) := errs.foldl (fun (acc : Model × List Json) (e : Json) =>
+    match e with
+    | .arr #[.str g, .str ty, ps] =>
+      (match addError acc.1 g ty (rawParamsOfJson ps) with
+       | some m' => (m', acc.2 ++ [Json.str "ok"])
+       | none => (acc.1, acc.2 ++ [Json.str "ERR:value"]))
+    | _ => (acc.1, acc.2 ++ [Json.str "ERR:value"])) ([], [])
+  match gatesOfJson! (j.getObjValD "gates"), getNat? (j.getObjValD "n") with
+  | .ok gs, some n =>
+    let ops := noisyOps model gs
+    let dm : Json := if getBool j "dm" then
+        (match runNoisy n ops with | some v => svToJson v | none => Json.str "ERR:unsupported") else Json.null
+    Json.mkObj [("added", Json.arr flags.toArray), ("ops", Json.arr (ops.map nopToJson).toArray), ("dm", dm)]
+  | _, _ => jErr "noise: bad arguments"
+
+end Tangelo.Driver
